@@ -1055,3 +1055,172 @@ func reachesInstr(a, b ssa.Instruction) bool {
 	}
 	return dfs(a.Block())
 }
+
+// ---- OWN-file ----------------------------------------------------------------------------------------------------------
+
+func init() {
+	register(&Rule{ID: "OWN-file", Props: []string{"C20", "C17"}, Min: 4,
+		Doc: "O: a file.File is immutable once published: inside package file its fields are stored to only while the File is being constructed (a File allocated in the same function) or by the reviewed builder WithSourceMap, which the parser calls before the File becomes part of a Program. A Script's File is shared by every runtime that runs or copies it, so a lazily filled cache in a File is a data race between runtimes",
+		Run: ruleOwnFile})
+	register(&Rule{ID: "EARLY-regexp", Props: []string{"C04"}, Min: 2,
+		Doc: "P (ES5 §7.8.5, §16: an invalid regular expression literal is an early error): the parser function that builds *ast.RegExpLiteral transforms the pattern (TransformRegExp) and compiles the result (regexp.Compile) at parse time, and each of the two error results reaches p.error: the program is rejected before any statement runs",
+		Run: ruleEarlyRegexp})
+}
+
+var ownFileReviewed = map[string]string{
+	"file.(*File).WithSourceMap": "builder: called by the parser on the File it has just created, before the File is reachable from a Program",
+}
+
+func ruleOwnFile(c *Ctx, r *R) {
+	fns := c.AllSrcFuncs("file")
+	if len(fns) == 0 {
+		r.undecided("unresolved:file", "-", "UNRESOLVED: package file not loaded")
+		return
+	}
+	for _, fn := range fns {
+		n := 0
+		bad := ""
+		var badPos token.Pos
+		for _, b := range fn.Blocks {
+			for _, ins := range b.Instrs {
+				var addr ssa.Value
+				switch x := ins.(type) {
+				case *ssa.Store:
+					addr = x.Addr
+				case *ssa.MapUpdate:
+					addr = x.Map
+				default:
+					continue
+				}
+				// walk to the base of the address
+				base, viaFile := addr, false
+				for d := 0; d < 6 && base != nil; d++ {
+					switch y := base.(type) {
+					case *ssa.FieldAddr:
+						if nt, _ := fieldOfAddr(y); nt != nil && nt.Obj().Name() == "File" {
+							viaFile = true
+						}
+						base = y.X
+						continue
+					case *ssa.IndexAddr:
+						base = y.X
+						continue
+					case *ssa.UnOp:
+						base = y.X
+						continue
+					}
+					break
+				}
+				if !viaFile {
+					continue
+				}
+				n++
+				if _, fresh := base.(*ssa.Alloc); fresh {
+					continue
+				}
+				bad, badPos = "field of a File that this function did not allocate", instrPos(ins)
+			}
+		}
+		if n == 0 {
+			continue
+		}
+		key := ssaFuncName(fn)
+		switch {
+		case bad == "":
+			r.ok(key, c.Pos(fn.Pos()), fmt.Sprintf("%d store(s), all into a File allocated here", n))
+		case ownFileReviewed[key] != "":
+			r.ok("reviewed:"+key, c.Pos(badPos), ownFileReviewed[key])
+		default:
+			r.bad(key, c.Pos(badPos), fmt.Sprintf("%s stores into a %s: a Script's File is shared by every runtime running it (and by copies), so writing it after construction - a lazily built cache included - is a data race between runtimes", key, bad))
+		}
+	}
+	// every method with a *File receiver that does not store is listed as read-only
+	if ft := c.LookupType("file", "File"); ft != nil {
+		for _, fn := range fns {
+			if fn.Signature.Recv() != nil && typeIs(fn.Signature.Recv().Type(), ottoPath+"/file", "File") {
+				r.ok("method:"+ssaFuncName(fn), c.Pos(fn.Pos()), "examined")
+			}
+		}
+	}
+}
+
+func ruleEarlyRegexp(c *Ctx, r *R) {
+	var fn *ssa.Function
+	for _, f := range c.AllSrcFuncs("parser") {
+		if f.Parent() == nil && f.Signature.Results().Len() == 1 && typeIs(f.Signature.Results().At(0).Type(), ottoPath+"/ast", "RegExpLiteral") {
+			fn = f
+		}
+	}
+	if fn == nil {
+		r.undecided("unresolved:parseRegExpLiteral", "-", "UNRESOLVED: no parser function returns *ast.RegExpLiteral")
+		return
+	}
+	for _, want := range []struct{ pkg, name, why string }{
+		{ottoPath + "/parser", "TransformRegExp", "the pattern is translated at parse time"},
+		{"regexp", "Compile", "the translated pattern is compiled at parse time"},
+	} {
+		var call *ssa.Call
+		for _, b := range fn.Blocks {
+			for _, ins := range b.Instrs {
+				if cl, ok := ins.(*ssa.Call); ok {
+					if callee := cl.Call.StaticCallee(); callee != nil && callee.Name() == want.name && callee.Pkg != nil && callee.Pkg.Pkg.Path() == want.pkg {
+						call = cl
+					}
+				}
+			}
+		}
+		key := want.name
+		if call == nil {
+			r.bad(key, c.Pos(fn.Pos()), fmt.Sprintf("%s no longer calls %s.%s: an invalid regular expression literal is not rejected when the program is parsed, so the statements before it run and a try/catch around it can swallow what must be an early SyntaxError", ssaFuncName(fn), want.pkg, want.name))
+			continue
+		}
+		// the error result is tested and the failing side reaches p.error
+		reported := false
+		for _, ref := range *call.Referrers() {
+			ex, ok := ref.(*ssa.Extract)
+			if !ok || ex.Index != 1 {
+				continue
+			}
+			for _, r2 := range *ex.Referrers() {
+				cmp, ok := r2.(*ssa.BinOp)
+				if !ok {
+					continue
+				}
+				for _, r3 := range *cmp.Referrers() {
+					iff, ok := r3.(*ssa.If)
+					if !ok {
+						continue
+					}
+					side := 0
+					if cmp.Op == token.EQL {
+						side = 1
+					}
+					// some call of (*parser).error is reachable on the failing side before the join
+					seen := map[*ssa.BasicBlock]bool{}
+					var dfs func(b *ssa.BasicBlock, depth int)
+					dfs = func(b *ssa.BasicBlock, depth int) {
+						if seen[b] || depth > 6 {
+							return
+						}
+						seen[b] = true
+						for _, ins := range b.Instrs {
+							if cl, ok := ins.(*ssa.Call); ok {
+								if callee := cl.Call.StaticCallee(); callee != nil && callee.Name() == "error" && callee.Signature.Recv() != nil {
+									reported = true
+								}
+							}
+						}
+						if len(b.Preds) > 1 && b != iff.Block().Succs[side] {
+							return // join point: past the failing side
+						}
+						for _, s := range b.Succs {
+							dfs(s, depth+1)
+						}
+					}
+					dfs(iff.Block().Succs[side], 0)
+				}
+			}
+		}
+		r.check(reported, key, c.Pos(instrPos(call)), want.why+" and its error is reported", fmt.Sprintf("the error returned by %s is not reported through p.error on the failing side: the invalid literal parses", want.name))
+	}
+}
